@@ -137,51 +137,60 @@ Proof.
       cbn in *; subst. destruct s2 as [[]|]; reflexivity.
 Qed.
 
-(* what does hold for uv_write2: the result clause, and the ledger up to the one counter *)
-Lemma write2_partial n c e l w :
+(* the full statement for the current code (allocate, then register) *)
+Lemma write2_fault_safe n c e l w :
   let o := uv_write2 n c e l w in
   (o_res o = Ret RcOk /\ l_reqs (o_led o) = l_reqs l + 1) \/
-  (o_res o = Ret (RcErr ENOMEM) /\ In false (w_alloc w) /\ o_led o = add_reqs 1 l).
+  (o_res o = Ret (RcErr ENOMEM) /\ In false (w_alloc w) /\ o_led o = l).
 Proof.
-  cbv zeta. unfold uv_write2.
-  destruct (Nat.ltb 4 n) eqn:B.
+  cbv zeta. unfold uv_write2. destruct (Nat.ltb 4 n) eqn:B.
   - pose proof (alloc_false_in PMalloc w) as F.
     destruct (alloc PMalloc w) as [b v]; cbn in *. destruct b; cbn.
     + left. destruct c; [split; reflexivity|]. destruct e; [|split; reflexivity].
-      destruct (uv_write_step (Nat.eqb n 1) v) as [s x]. destruct s as [[]|]; split; reflexivity.
+      match goal with |- context [uv_write_step ?a ?b] => destruct (uv_write_step a b) as [s x] end.
+      destruct s as [[]|]; split; reflexivity.
     + right. repeat split; auto.
   - cbn. left. destruct c; [split; reflexivity|]. destruct e; [|split; reflexivity].
-    destruct (uv_write_step (Nat.eqb n 1) w) as [s x]. destruct s as [[]|]; split; reflexivity.
+    match goal with |- context [uv_write_step ?a ?b] => destruct (uv_write_step a b) as [s x] end.
+    destruct s as [[]|]; split; reflexivity.
 Qed.
 
-Lemma write2_refuted_witness :
-  exists (w : world) (l : ledger),
-    o_res (uv_write2 6 false true l w) = Ret (RcErr ENOMEM) /\ o_led (uv_write2 6 false true l w) <> l.
-Proof.
-  exists (mkW [false] [] []), l0. split; [reflexivity|]. vm_compute. discriminate.
-Qed.
-
-(* the repaired order (allocate, then register) *)
-Definition uv_write2_fixed (nbufs : nat) (connecting empty_queue : bool) (l : ledger) (w : world) : out :=
+(* history: the code before /repo f63c297 registered the request first *)
+Definition uv_write2_unfixed (nbufs : nat) (connecting empty_queue : bool) (l : ledger) (w : world) : out :=
+  let l := add_reqs 1 l in
   let big := Nat.ltb 4 nbufs in
   let '(ok, w) := if big then alloc PMalloc w else (true, w) in
   if negb ok then mkO (Ret (RcErr ENOMEM)) l None w
   else
-    let o := uv_write2 nbufs connecting empty_queue l (mkW (true :: w_alloc w) (w_sys w) (w_log w)) in
-    o.
+    let l := if big then add_mem 1 l else l in
+    if connecting then mkO (Ret RcOk) l None w
+    else if empty_queue then
+      let '(s, w) := uv_write_step (Nat.eqb nbufs 1) w in
+      match s with
+      | WDone RcOk => mkO (Ret RcOk) (if big then add_mem (-1) l else l) (Some RcOk) w
+      | WDone st => mkO (Ret RcOk) l (Some st) w
+      | WQueued => mkO (Ret RcOk) l None w
+      end
+    else mkO (Ret RcOk) l None w.
 
-Lemma write2_fixed_fault_safe n c e l w :
-  let o := uv_write2_fixed n c e l w in
-  o_res o = Ret RcOk \/ (o_res o = Ret (RcErr ENOMEM) /\ In false (w_alloc w) /\ o_led o = l).
+Lemma write2_unfixed_refuted :
+  exists (w : world) (l : ledger),
+    o_res (uv_write2_unfixed 6 false true l w) = Ret (RcErr ENOMEM) /\
+    o_led (uv_write2_unfixed 6 false true l w) = add_reqs 1 l /\ o_led (uv_write2_unfixed 6 false true l w) <> l.
 Proof.
-  cbv zeta. unfold uv_write2_fixed, uv_write2. destruct (Nat.ltb 4 n) eqn:B.
-  - pose proof (alloc_false_in PMalloc w) as F.
-    destruct (alloc PMalloc w) as [b v]; cbn in *. destruct b; cbn.
-    + left. destruct c; [reflexivity|]. destruct e; [|reflexivity].
-      match goal with |- context [uv_write_step ?a ?b] => destruct (uv_write_step a b) as [s x] end.
-      destruct s as [[]|]; reflexivity.
-    + right. repeat split; auto.
-  - cbn. left. destruct c; [reflexivity|]. destruct e; [|reflexivity].
+  exists (mkW [false] [] []), l0. split; [reflexivity|]. split; [reflexivity|]. vm_compute. discriminate.
+Qed.
+
+(* the two variants differ in nothing else *)
+Lemma write2_unfixed_same_on_success n c e l w :
+  o_res (uv_write2 n c e l w) = Ret RcOk -> obs (uv_write2_unfixed n c e l w) = obs (uv_write2 n c e l w).
+Proof.
+  unfold uv_write2, uv_write2_unfixed. destruct (Nat.ltb 4 n) eqn:B.
+  - destruct (alloc PMalloc w) as [b v]. destruct b; cbn; [|discriminate]. intros _.
+    destruct c; [destruct l; reflexivity|]. destruct e; [|destruct l; reflexivity].
+    match goal with |- context [uv_write_step ?a ?b] => destruct (uv_write_step a b) as [s x] end.
+    destruct s as [[]|]; destruct l; reflexivity.
+  - cbn. intros _. destruct c; [reflexivity|]. destruct e; [|reflexivity].
     match goal with |- context [uv_write_step ?a ?b] => destruct (uv_write_step a b) as [s x] end.
     destruct s as [[]|]; reflexivity.
 Qed.
@@ -391,79 +400,23 @@ Proof. split; reflexivity. Qed.
 
 (* ---------------------------------------------------------------------- *)
 (* uv_fs_poll_start                                                         *)
-Lemma fs_poll_start_partial act ps l w :
-  let o := uv_fs_poll_start act ps l w in
-  o_res o = Ret RcOk \/
-  (o_res o = Ret (RcErr ENOMEM) /\ In false (w_alloc w) /\
-   (o_led o = l \/ o_led o = add_dangling 1 (add_hq 1 l))) \/
-  (exists s, o_res o = Abort s /\ permitted s = true).
+Lemma fs_poll_start_fault_safe act ps l w : safe_outcome l w (uv_fs_poll_start act ps l w).
 Proof.
-  cbv zeta. unfold uv_fs_poll_start. destruct act; [left; reflexivity|].
+  unfold safe_outcome, uv_fs_poll_start. destruct act; [left; reflexivity|].
   pose proof (alloc_false_in PCalloc w) as F. pose proof (alloc_incl PCalloc w) as I.
   destruct (alloc PCalloc w) as [b v]; cbn in *. destruct b; cbn.
-  - destruct (fs_stat_fault_safe ps (add_hq 1 (add_mem 1 l)) v) as [H|[(H1 & H2 & H3)|(s & H1 & H2)]].
+  - destruct (fs_stat_fault_safe ps (add_mem 1 l) v) as [H|[(H1 & H2 & H3)|(s & H1 & H2)]].
     + rewrite H. left; reflexivity.
-    + rewrite H1. cbn. right; left. repeat split; auto. right. rewrite H3.
-      destruct l; unfold add_dangling, add_mem, add_hq; cbn. f_equal; lia.
+    + rewrite H1. cbn. right; left. repeat split; auto. rewrite H3.
+      destruct l; unfold add_mem; cbn. f_equal; lia.
     + rewrite H1. cbn. right; right. exists s; split; auto.
   - right; left. repeat split; auto.
 Qed.
 
-Lemma fs_poll_start_refuted_witness :
-  exists (w : world) (l : ledger),
-    o_res (uv_fs_poll_start false true l w) = Ret (RcErr ENOMEM) /\
-    l_dangling (o_led (uv_fs_poll_start false true l w)) = l_dangling l + 1 /\
-    l_hq (o_led (uv_fs_poll_start false true l w)) = l_hq l + 1.
-Proof. exists (mkW [true; false] [] []), l0. vm_compute. repeat split. Qed.
-
 (* ---------------------------------------------------------------------- *)
 (* uv_os_environ                                                            *)
-Lemma environ_loop_partial env : forall cnt l w,
-  0 <= cnt ->
+Lemma environ_loop_safe env : forall cnt l w,
   let o := environ_loop env cnt l w in
-  (o_res o = Ret RcOk /\ exists k, 0 <= k /\ o_led o = add_mem k l) \/
-  (o_res o = Ret (RcErr ENOMEM) /\ In false (w_alloc w) /\ exists k, -1 <= k /\ o_led o = add_mem k l).
-Proof.
-  induction env as [|h env IH]; intros cnt l w Hc; cbn.
-  - left. split; auto. exists 0. split; [lia|]. destruct l; unfold add_mem; cbn; f_equal; lia.
-  - pose proof (alloc_false_in PMalloc w) as F. pose proof (alloc_incl PMalloc w) as I.
-    destruct (alloc PMalloc w) as [b v]; cbn in *. destruct b; cbn.
-    + destruct h.
-      * destruct (IH (cnt + 1) (add_mem 1 l) v ltac:(lia)) as [(A & k & K1 & K2)|(A & B & k & K1 & K2)].
-        -- left. split; auto. exists (k + 1). split; [lia|]. rewrite K2.
-           destruct l; unfold add_mem; cbn; f_equal; lia.
-        -- right. repeat split; auto. exists (k + 1). split; [lia|]. rewrite K2.
-           destruct l; unfold add_mem; cbn; f_equal; lia.
-      * destruct (IH cnt l v Hc) as [(A & k & K1 & K2)|(A & B & k & K1 & K2)].
-        -- left. split; auto. exists k; auto.
-        -- right. repeat split; auto. exists k; auto.
-    + right. repeat split; auto. exists (-1). split; [lia|reflexivity].
-Qed.
-
-(* the failure path releases the array only: the ledger is back to [l] exactly when no name
-   had been duplicated yet *)
-Lemma os_environ_partial env l w :
-  let o := uv_os_environ env l w in
-  (o_res o = Ret RcOk) \/
-  (o_res o = Ret (RcErr ENOMEM) /\ In false (w_alloc w) /\ exists k, 0 <= k /\ o_led o = add_mem k l).
-Proof.
-  cbv zeta. unfold uv_os_environ.
-  pose proof (alloc_false_in PCalloc w) as F. pose proof (alloc_incl PCalloc w) as I.
-  destruct (alloc PCalloc w) as [b v]; cbn in *. destruct b; cbn.
-  - destruct (environ_loop_partial env 0 (add_mem 1 l) v ltac:(lia)) as [(A & _)|(A & B & k & K1 & K2)].
-    + left; auto.
-    + right. repeat split; auto. exists (k + 1). split; [lia|]. rewrite K2.
-      destruct l; unfold add_mem; cbn; f_equal; lia.
-  - right. repeat split; auto. exists 0. split; [lia|]. destruct l; unfold add_mem; cbn; f_equal; lia.
-Qed.
-
-Lemma os_environ_refuted_witness :
-  exists (env : list bool) (w : world) (l : ledger),
-    o_res (uv_os_environ env l w) = Ret (RcErr ENOMEM) /\ l_mem (o_led (uv_os_environ env l w)) = l_mem l + 2.
-Proof. exists [true; true; true], (mkW [true; true; true; false] [] []), l0. vm_compute. split; reflexivity. Qed.
-
-Lemma environ_loop_fixed_safe env : forall cnt l w,
-  let o := environ_loop_fixed env cnt l w in
   o_res o = Ret RcOk \/
   (o_res o = Ret (RcErr ENOMEM) /\ In false (w_alloc w) /\ o_led o = add_mem (- cnt - 1) l).
 Proof.
@@ -477,17 +430,39 @@ Proof.
   - right. repeat split; auto.
 Qed.
 
-Lemma os_environ_fixed_fault_safe env l w :
-  let o := uv_os_environ_fixed env l w in
+Lemma os_environ_fault_safe env l w :
+  let o := uv_os_environ env l w in
   o_res o = Ret RcOk \/ (o_res o = Ret (RcErr ENOMEM) /\ In false (w_alloc w) /\ o_led o = l).
 Proof.
-  cbv zeta. unfold uv_os_environ_fixed.
+  cbv zeta. unfold uv_os_environ.
   pose proof (alloc_false_in PCalloc w) as F. pose proof (alloc_incl PCalloc w) as I.
   destruct (alloc PCalloc w) as [b v]; cbn in *. destruct b; cbn.
-  - destruct (environ_loop_fixed_safe env 0 (add_mem 1 l) v) as [A|(A & B & C)]; [left; auto|].
+  - destruct (environ_loop_safe env 0 (add_mem 1 l) v) as [A|(A & B & C)]; [left; auto|].
     right. repeat split; auto. rewrite C. destruct l; unfold add_mem; cbn; f_equal; lia.
   - right. repeat split; auto.
 Qed.
+
+(* history: before /repo 75025a4 the failure path freed slot [cnt] (still zeroed) cnt times,
+   i.e. nothing, and then the array *)
+Fixpoint environ_loop_unfixed (env : list bool) (cnt : Z) (l : ledger) (w : world) : out :=
+  match env with
+  | [] => mkO (Ret RcOk) l (Some (RcOther cnt)) w
+  | has_eq :: rest =>
+    let '(ok, w) := alloc PMalloc w in
+    if negb ok then mkO (Ret (RcErr ENOMEM)) (add_mem (-1) l) (Some (RcOther 0)) w
+    else if has_eq then environ_loop_unfixed rest (cnt + 1) (add_mem 1 l) w
+    else environ_loop_unfixed rest cnt l w
+  end.
+Definition uv_os_environ_unfixed (env : list bool) (l : ledger) (w : world) : out :=
+  let '(ok, w) := alloc PCalloc w in
+  if negb ok then mkO (Ret (RcErr ENOMEM)) l (Some (RcOther 0)) w
+  else environ_loop_unfixed env 0 (add_mem 1 l) w.
+
+Lemma os_environ_unfixed_refuted :
+  exists (env : list bool) (w : world) (l : ledger),
+    o_res (uv_os_environ_unfixed env l w) = Ret (RcErr ENOMEM) /\
+    l_mem (o_led (uv_os_environ_unfixed env l w)) = l_mem l + 2.
+Proof. exists [true; true; true], (mkW [true; true; true; false] [] []), l0. vm_compute. split; reflexivity. Qed.
 
 (* ---------------------------------------------------------------------- *)
 (* uv_fs_event_start                                                        *)
@@ -667,6 +642,150 @@ Proof.
       * intros H N. eapply (FIN RcIntr false l1 v3); eauto.
 Qed.
 
+(* descriptor balance of uv_spawn's error exits *)
+Lemma close_fd_fds l w : l_fds (snd (fst (uv_close_fd l w))) = l_fds l - 1.
+Proof. destruct (close_fd_spec l w) as [E _]. rewrite E. reflexivity. Qed.
+Lemma npipes_false r : npipes (false :: r) = npipes r.
+Proof. reflexivity. Qed.
+Lemma npipes_true r : npipes (true :: r) = S (npipes r).
+Proof. reflexivity. Qed.
+
+Lemma init_stdio_fds stdio : forall l w,
+  exists k, 0 <= k <= Z.of_nat (npipes stdio) /\
+    l_fds (snd (fst (init_stdio stdio l w))) = l_fds l + 2 * k /\
+    (fst (fst (init_stdio stdio l w)) = None -> k = Z.of_nat (npipes stdio)).
+Proof.
+  induction stdio as [|b r IH]; intros l w.
+  - exists 0. cbn. repeat split; lia.
+  - destruct b.
+    + rewrite npipes_true. cbn [init_stdio]. destruct (sys PSocketpair w) as [a v]. destruct a.
+      * destruct (IH (add_fds 2 l) v) as (k & K1 & K2 & K3). exists (k + 1).
+        split; [lia|]. split; [rewrite K2; unfold add_fds; cbn [l_fds]; lia|]. intros H. rewrite (K3 H). lia.
+      * exists 0. cbn. split; [lia|]. split; [lia|]. discriminate.
+      * exists 0. cbn. split; [lia|]. split; [lia|]. discriminate.
+    + rewrite npipes_false. cbn [init_stdio]. apply IH.
+Qed.
+
+Lemma close_n_fds n : forall l w, l_fds (fst (close_n n l w)) = l_fds l - Z.of_nat n.
+Proof.
+  induction n as [|n IH]; intros l w; [cbn; lia|]. cbn [close_n].
+  pose proof (close_fd_fds l w) as D. destruct (uv_close_fd l w) as [[c l1] v]. cbn [fst snd] in D.
+  rewrite IH, D. lia.
+Qed.
+
+Lemma open_streams_fds stdio : forall l w,
+  fst (fst (open_streams stdio l w)) = None ->
+  l_fds (snd (fst (open_streams stdio l w))) = l_fds l - Z.of_nat (npipes stdio).
+Proof.
+  induction stdio as [|b r IH]; intros l w; [cbn; lia|]. destruct b.
+  - rewrite npipes_true. cbn [open_streams].
+    pose proof (close_fd_fds l w) as D. destruct (uv_close_fd l w) as [[c l1] v]. cbn [fst snd] in D.
+    destruct c; cbn [fst snd]; try discriminate.
+    destruct (sysr PIoctl v) as [a v2]. intros H. rewrite (IH l1 v2 H), D. lia.
+  - rewrite npipes_false. cbn [open_streams]. apply IH.
+Qed.
+
+Lemma spawn_error_fds stdio fc l w r :
+  o_res (uv_spawn stdio fc l w) = Ret r -> r <> RcOk ->
+  l_fds (o_led (uv_spawn stdio fc l w)) = l_fds l \/
+  l_fds (o_led (uv_spawn stdio fc l w)) = l_fds l + Z.of_nat (npipes stdio).
+Proof.
+  unfold uv_spawn.
+  remember (Nat.ltb 8 (length stdio)) as big eqn:HB.
+  assert (FIN : forall (exec : rc) (l1 : ledger) (v : world),
+     l_fds l1 = l_fds l + 2 * Z.of_nat (npipes stdio) ->
+     forall o : out, o = (let '(ab, l3, w3) := open_streams stdio l1 v in
+       match ab with
+       | Some s => mkO (Abort s) l3 None w3
+       | None => mkO (Ret exec) (if big then add_mem (-1) l3 else l3) None w3
+       end) ->
+     o_res o = Ret r -> l_fds (o_led o) = l_fds l + Z.of_nat (npipes stdio)).
+  { intros exec l1 v FD o -> .
+    pose proof (open_streams_fds stdio l1 v) as OS.
+    destruct (open_streams stdio l1 v) as [[ab l3] w3]. cbn [fst snd] in OS.
+    destruct ab; cbn; [discriminate|]. intros _. specialize (OS eq_refl).
+    destruct big; cbn; lia. }
+  assert (MAIN : forall (lb : ledger) (v : world), l_fds lb = l_fds l ->
+    forall o : out, o =
+    (let fds0 := l_fds lb in
+     let '(e, l1, w1) := init_stdio stdio lb v in
+     match e with
+     | Some r0 =>
+       let '(l2, w2) := close_n (Z.to_nat (l_fds l1 - fds0)) l1 w1 in
+       mkO (Ret r0) (if big then add_mem (-1) l2 else l2) None w2
+     | None =>
+       let '(lk, w2) := if fc then
+                        let '(a, w2) := sysr PRead w1 in
+                        match a with
+                        | Ok => let '(b, w3) := sysr PWrite w2 in
+                                (match b with Ok => None | _ => Some SSignalLock end, w3)
+                        | _ => (Some SSignalLock, w2)
+                        end
+                      else (None, w1) in
+       match lk with
+       | Some s => mkO (Abort s) l1 None w2
+       | None =>
+         let finish := fun (exec : rc) (active : bool) (l4 : ledger) (w4 : world) =>
+           let l5 := if active then add_handles 1 l4 else l4 in
+           let '(ab, l6, w6) := open_streams stdio l5 w4 in
+           match ab with
+           | Some s => mkO (Abort s) l6 None w6
+           | None => mkO (Ret exec) (if big then add_mem (-1) l6 else l6) None w6
+           end in
+         let '(a, w3) := sys PPipe2 w2 in
+         match a with
+         | Fail e0 => finish (RcErr e0) false l1 w3
+         | Intr => finish RcIntr false l1 w3
+         | Ok =>
+           let l4 := add_fds 2 l1 in
+           let '(f, w4) := sys PFork w3 in
+           let '(_, l5, w5) := uv_close_fd l4 w4 in
+           match f with
+           | Fail e0 => let '(_, l6, w6) := uv_close_fd l5 w5 in finish (RcErr e0) false l6 w6
+           | Intr => let '(_, l6, w6) := uv_close_fd l5 w5 in finish RcIntr false l6 w6
+           | Ok =>
+             let '(rd, w6) := sysr PRead w5 in
+             match rd with
+             | Ok => let '(_, l6, w7) := uv_close_fd l5 w6 in finish RcOk true l6 w7
+             | _ => mkO (Abort SSpawnRead) l5 None w6
+             end
+           end
+         end
+       end
+     end) ->
+    o_res o = Ret r -> r <> RcOk ->
+    l_fds (o_led o) = l_fds l \/ l_fds (o_led o) = l_fds l + Z.of_nat (npipes stdio)).
+  { intros lb v FB o -> . cbv zeta.
+    destruct (init_stdio_fds stdio lb v) as (k & K1 & K2 & K3).
+    destruct (init_stdio stdio lb v) as [[e l1] v1]. cbn [fst snd] in K2, K3.
+    destruct e.
+    - pose proof (close_n_fds (Z.to_nat (l_fds l1 - l_fds lb)) l1 v1) as CN.
+      destruct (close_n _ l1 v1) as [l2 v2]. cbn [fst] in CN. cbn. intros _ _. left.
+      destruct big; cbn; lia.
+    - specialize (K3 eq_refl). subst k.
+      destruct (if fc then _ else _) as [lk v2]. destruct lk; cbn; [discriminate|].
+      destruct (sys PPipe2 v2) as [a v3]. destruct a.
+      + destruct (sys PFork v3) as [f v4].
+        pose proof (close_fd_fds (add_fds 2 l1) v4) as C1.
+        destruct (uv_close_fd (add_fds 2 l1) v4) as [[c1 l4] v5]. cbn [fst snd] in C1. cbn [l_fds add_fds] in C1.
+        destruct f.
+        * destruct (sysr PRead v5) as [rd v6]. destruct rd; cbn; try discriminate.
+          destruct (uv_close_fd l4 v6) as [[c2 l5] v7].
+          destruct (open_streams stdio (add_handles 1 l5) v7) as [[ab l6] v8]. destruct ab; cbn; [discriminate|].
+          intros H N. inversion H; subst; congruence.
+        * pose proof (close_fd_fds l4 v5) as C2. destruct (uv_close_fd l4 v5) as [[c2 l5] v7]. cbn [fst snd] in C2.
+          intros H N. right. eapply (FIN (RcErr e) l5 v7); [lia|reflexivity|exact H].
+        * pose proof (close_fd_fds l4 v5) as C2. destruct (uv_close_fd l4 v5) as [[c2 l5] v7]. cbn [fst snd] in C2.
+          intros H N. right. eapply (FIN RcIntr l5 v7); [lia|reflexivity|exact H].
+      + intros H N. right. eapply (FIN (RcErr e) l1 v3); [lia|reflexivity|exact H].
+      + intros H N. right. eapply (FIN RcIntr l1 v3); [lia|reflexivity|exact H]. }
+  destruct big.
+  - destruct (alloc PMalloc w) as [b v]. destruct b; cbn [negb].
+    + intros H N. eapply (MAIN (add_mem 1 (add_hq 1 l)) v); [reflexivity|reflexivity|exact H|exact N].
+    + cbn. intros _ _. left; reflexivity.
+  - cbn [negb]. intros H N. eapply (MAIN (add_hq 1 l) w); [reflexivity|reflexivity|exact H|exact N].
+Qed.
+
 (* non-vacuity: a failing and a succeeding run of uv_spawn *)
 Lemma spawn_examples :
   o_res (uv_spawn [true; true; false] true l0 (mkW [] [Ok; Fail EMFILE] [])) = Ret (RcErr EMFILE) /\
@@ -680,8 +799,6 @@ Proof. vm_compute. repeat split. Qed.
 (* every return of uv_loop_init: success, an error code with the accounting restored and no
    descriptor left except the process-wide signal lock pipe of the very first loop, or abort()
    in maybe_resize (permitted) / the process-wide signal initialisation (item 23) *)
-Lemma close_fd_fds l w : l_fds (snd (fst (uv_close_fd l w))) = l_fds l - 1.
-Proof. destruct (close_fd_spec l w) as [E _]. rewrite E. reflexivity. Qed.
 
 Definition loop_init_post (first : bool) (l : ledger) (o : out) : Prop :=
   o_res o = Ret RcOk \/
